@@ -425,7 +425,7 @@ META = {
                   "anonymous label bodies": "%d strings over %r" % (len(BODIES), "".join(BODY_ALPHABET)),
                   "naming": "%d templates x %d names x 4 constraint kinds (ix, uq, ck, fk) x 0..2 columns x named/unnamed" % (len(TEMPLATES), len(NAMES)),
                   "collisions": "2..3 generated labels from %d (prefix_len,total_len) shapes, label_length in %r; 3 user labels from %r" % (len(SHAPES), LABEL_LENGTHS, USER_LABELS)},
-        "thorough": {"same as quick": "all slices are exhausted in the quick tier; thorough adds max_/label_length up to 1000 and 3-column collisions over all shapes"},
+        "thorough": {"as quick, plus": "max_ and label_length up to 1000, all %d name lengths x %d counter starts for _truncated_identifier" % (len(LENS), len(COUNTERS))},
     },
     "outside": ["label_length < 7 (the brief's bound; '_' + counter alone is 2+ characters)", "more than 0xFFFFF truncated names in one statement (6 hex digits)",
                 "naming conventions with user callables", "name *content* beyond the tables (the kernels only slice and measure)",
